@@ -90,15 +90,17 @@ impl Limits {
     #[verifier::external_body] pub fn api_token() -> (r: Limits) { unimplemented!() }
 }
 #[verifier::external_body] pub struct EntrySealedCommitted { p: u8 }
+impl EntrySealedCommitted { pub uninterp spec fn uuid(&self) -> Uuid; }
 pub struct Arc<T> { pub v: T }
 pub struct IdentUser { pub entry: Arc<EntrySealedCommitted> }
 pub enum IdentType { User(IdentUser), Synch(Uuid), Internal(u8) }
 //@extract Identity
 #[verifier::external_body] pub struct QueryServerReadTransaction { p: u8 }
 impl QueryServerReadTransaction {
-    #[verifier::external_body] pub fn internal_search_uuid(&mut self, uuid: Uuid) -> (r: Result<Arc<EntrySealedCommitted>, OperationError>) { unimplemented!() }
+    #[verifier::external_body] pub fn internal_search_uuid(&mut self, uuid: Uuid) -> (r: Result<Arc<EntrySealedCommitted>, OperationError>)
+        ensures r matches Ok(e) ==> e.v.uuid() == uuid { unimplemented!() }
 }
-pub struct ApiToken { pub token_id: Uuid, pub issued_at: OffsetDateTime, pub purpose: ApiTokenPurpose }
+pub struct ApiToken { pub account_id: Uuid, pub token_id: Uuid, pub issued_at: OffsetDateTime, pub purpose: ApiTokenPurpose }
 pub struct ServiceAccount {}
 impl ServiceAccount {
     // contract proved on the real text in C32's unit; opaque here
@@ -117,6 +119,25 @@ impl IdmTxn {
 }
 impl Identity {
 //@extract identity_new
+}
+// ---- C40: what identity an LDAP password bind maps to (idm/server.rs) ----
+pub const UUID_ANONYMOUS: Uuid = Uuid(@@constexpr:UUID_ANONYMOUS:uuid!\("([0-9a-f-]+)"\):uuidhex@@);
+//@extract LdapSession
+impl Arc<EntrySealedCommitted> { pub fn as_ref(&self) -> (r: &EntrySealedCommitted) ensures *r == self.v { &self.v } }
+impl Account {
+    pub uninterp spec fn valid_at(&self, ct: Duration) -> bool;          // Account::is_within_valid_time (C32 / C49)
+    #[verifier::external_body] pub fn is_within_valid_time(&self, ct: Duration) -> (r: bool) ensures r == self.valid_at(ct) { unimplemented!() }
+    // the account read from an entry is that entry's account (uuid); the policy resolution is opaque
+    #[verifier::external_body] pub fn try_from_entry_with_policy(e: &EntrySealedCommitted, qs: &mut QueryServerReadTransaction) -> (r: Result<(Account, ResolvedAccountPolicy), OperationError>)
+        ensures r matches Ok(p) ==> p.0.uuid == e.uuid() { unimplemented!() }
+}
+// "a bind with a username and password only ever yields anonymous-level read rights": the identity is the anonymous entry, read-only
+pub open spec fn anonymous_read_only(i: &Identity) -> bool {
+    (i.origin matches IdentType::User(u) && u.entry.v.uuid() == UUID_ANONYMOUS) && i.scope is ReadOnly
+}
+impl IdmTxn {
+//@extract process_ldap_uuid_to_identity
+//@extract validate_ldap_session
 }
 
 // Lemma (layer 3): write access at time `now` through a token minted by issue_uat at `t0` implies now < t0 + bound.
